@@ -490,6 +490,25 @@ def check(case, impl, repo=None):
             if b == "." and j + 1 < len(M) and M[j + 1] in ("x", "xy", "xyz") and a != "." and (M[j - 1] == ")" or IDENT.match(M[j - 1])):
                 j += 2
                 continue
+            # ... and when the operand of that cast is not a primary expression Metal parenthesises it first:
+            # `(float)+v` is written `(float)(+v).x`
+            if b == "(" and a != "(":
+                d = 0
+                k = j
+                while k < len(M):
+                    if M[k] == "(":
+                        d += 1
+                    elif M[k] == ")":
+                        d -= 1
+                        if d == 0:
+                            break
+                    k += 1
+                inner = M[j + 1:k]
+                if inner and k + 2 < len(M) and M[k + 1] == "." and M[k + 2] in ("x", "xy", "xyz") and H[i:i + len(inner)] == inner \
+                        and not any(x in threaded_leaf for x in inner):
+                    i += len(inner)
+                    j = k + 3
+                    continue
             # an expression statement wrapped in a cast to its own (enum) type: `(E)(lhs = rhs);`
             if b == "(" and a != "(" and (not H[i - 1:i] or H[i - 1] in ";{}"):
                 k = j + 1
